@@ -93,7 +93,7 @@ pub(crate) mod kani_verif {
         kani::cover!(true, "reachable");
     }
 
-    // @h props=C08,C07,C01,C10 tier=thorough kind=bounded cfg=w8 timeout=2400 funcs=get_tree_element note="complete 4-leaf tree (hook height 2): every node of the tree, symbolic I/seed, every hash function; taller trees only via the uniform per-node code" contract="T[r] = H(I||u32(r)||D_LEAF||K_{r-2^h}) / H(I||u32(r)||D_INTR||T[2r]||T[2r+1]), one hash per node, result T[1]; leaf LM-OTS keys by contract (c08_ots_*); h=2, n=16"
+    // @h props=C08,C07,C01,C10 tier=extended kind=bounded cfg=w8 timeout=2400 funcs=get_tree_element note="complete 4-leaf tree (hook height 2): every node of the tree, symbolic I/seed, every hash function; taller trees only via the uniform per-node code" contract="T[r] = H(I||u32(r)||D_LEAF||K_{r-2^h}) / H(I||u32(r)||D_INTR||T[2r]||T[2r+1]), one hash per node, result T[1]; leaf LM-OTS keys by contract (c08_ots_*); h=2, n=16"
     #[kani::proof]
     #[kani::stub(zeroize::optimization_barrier, no_barrier)]
     #[kani::stub(<[u8; 32] as tinyvec::Array>::default, fast_default)]
